@@ -12,6 +12,9 @@ LEN_PATTERNS_QUICK = [[0], [1], [2], [1, 0, 2], [3, 1]]
 LEN_PATTERNS_THOROUGH = [[0], [1], [2], [3], [1, 0, 2], [3, 1], [0, 2], [2, 1, 0, 3], [6], [20, 0, 1], [4, 5]]
 
 
+MAX_SIGNED_LEAVES = 8
+
+
 class Inst:
     """One symbolic instance of a struct value: value tree, assumptions (in-range), z3 variables by path."""
 
@@ -23,11 +26,14 @@ class Inst:
         self.vars = {}
         self.kinds = {}
         self.tag = tag
+        self.depth = 0
         self.value = self._mk(("struct", schema.top), schema.top)
 
     def _len(self):
         n = self.pattern[self.counter % len(self.pattern)]
         self.counter += 1
+        if self.depth > 1:
+            n = min(n, 2)      # long lengths only for outermost containers: nested ones would multiply
         return n
 
     def _int(self, path, lo, hi):
@@ -59,13 +65,19 @@ class Inst:
             self.vars[path] = f
             return f
         if k == "str":
+            self.depth += 1
             n = self._len()
+            self.depth -= 1
             return SymStr(self._int(f"{path}[{i}]", 0, 127) for i in range(n))
         if k == "arr":
             return [self._mk(t[1], f"{path}[{i}]") for i in range(t[2])]
         if k == "dyn":
+            self.depth += 1
             n = self._len()
-            return [self._mk(t[1], f"{path}[{i}]") for i in range(n)]
+            try:
+                return [self._mk(t[1], f"{path}[{i}]") for i in range(n)]
+            finally:
+                self.depth -= 1
         if k == "opt":
             n = self._len()
             return None if n == 0 else self._mk(t[1], path + "?")
@@ -84,6 +96,8 @@ def instances(schema: Schema, tier: str):
         if sig in seen:
             continue
         seen.add(sig)
+        if sum(1 for k, _ in inst.kinds.values() if k == "i") > MAX_SIGNED_LEAVES:
+            continue   # every signed leaf forks the decoder's sign test: 2^n paths (stated bound)
         yield inst
         if inst.counter == 0:
             return
